@@ -44,7 +44,7 @@ Do(a) == CASE a.a = "define" -> Define(a.c, a.n, DeclOf(a.d))
            [] a.a = "reload" -> Reload(a.c, DefsOf(a.defs))
            [] a.a = "close"  -> Close(a.c)
            [] a.a = "unload" -> Unload
-           [] a.a = "start"  -> HassStart
+           [] a.a = "boot"   -> Boot(DefsOf(a.d1), DefsOf(a.d2))
            [] a.a = "fire"   -> Fire(a.e)
            [] a.a = "set"    -> SetState(a.x)
            [] a.a = "call"   -> Call(a.s, a.data, a.rr)
@@ -52,11 +52,7 @@ Do(a) == CASE a.a = "define" -> Define(a.c, a.n, DeclOf(a.d))
 
 \* the recording as a value comparable with Proj: runs as a set (the count is compared separately)
 ObsVal(o) == [o EXCEPT !.runs = ToSet(o.runs)]
-\* before HA has started the subsystems legitimately differ in when services appear (legacy registers at
-\* definition, dm when the context starts): the registry is compared from the start event on
-Mask(r, st) == IF st THEN r ELSE [r EXCEPT !.cnt = [s \in Svc |-> 0], !.has = [s \in Svc |-> FALSE], !.own = [s \in Svc |-> NoOwner]]
-Matches(o) == /\ Mask(ObsVal(o), started') = Mask(Proj', started')
-              /\ Len(o.runs) = Cardinality(runs')
+Matches(o) == ObsVal(o) = Proj' /\ Len(o.runs) = Cardinality(runs')
 
 TNext == /\ ok /\ k < Len(Cases[cid].steps)
          /\ Do(Cases[cid].steps[k + 1].act)
